@@ -262,7 +262,7 @@ end AList
 /-! ### frames: which fields an operation leaves alone -/
 
 /-- the fields that neither a bank operation, nor a slashing routine, nor a message handler touches
-(the access-control list is not among them: a `gov/acl` change re-assigns the owner of one key) -/
+(the access-control list is not among them: a `gov/acl` change replaces the list) -/
 structure TxFrame (s s' : State) : Prop where
   prev : s'.prev = s.prev
   prevTot : s'.prevTot = s.prevTot
